@@ -334,3 +334,206 @@ func (e *Engine) lookupFn(name string) *ssa.Function {
 	}
 	return nil
 }
+
+// ---- strings helpers on strings of concrete length with symbolic contents ----
+
+func (e *Engine) strBytes(st *State, v Value) ([]*Term, StringV, bool) {
+	s, ok := v.(StringV)
+	if !ok || !s.Len.IsConst() {
+		return nil, s, false
+	}
+	if s.Len.C == 0 {
+		return nil, s, true
+	}
+	o := e.obj(st, s.Obj)
+	out := make([]*Term, s.Len.C)
+	for i := range out {
+		out[i] = o.Arr.Read(BinBV("bvadd", s.Off, c64(uint64(i))))
+	}
+	return out, s, true
+}
+
+// forkOn continues the current state under Not(c) and queues a copy under c whose call result is res
+func (e *Engine) forkOn(st *State, x *ssa.Call, c *Term, res Value) {
+	if r, mdl := e.check(append(append([]*Term(nil), st.pc...), c)); r != RUnsat {
+		alt := st.clone()
+		af := alt.frames[len(alt.frames)-1]
+		af.env[x] = res
+		alt.pc = append(alt.pc, c)
+		alt.model = mdl
+		e.extraForks = append(e.extraForks, alt)
+		e.Forks++
+	}
+	e.extendPC(st, Not(c))
+}
+
+// stringsScan models strings.Index / IndexByte / Count for a one-byte constant separator by case-splitting
+// on the positions of the separator (the string has concrete length, its bytes are symbolic).
+func (e *Engine) stringsScan(st *State, f *Frame, x *ssa.Call, name string, args []Value) (Value, bool) {
+	bs, _, ok := e.strBytes(st, args[0])
+	if !ok || x == nil {
+		return nil, false
+	}
+	var sep *Term
+	if name == "strings.IndexByte" {
+		sep = args[1].(*Term)
+	} else {
+		c := e.constOf(st, args[1].(StringV))
+		if c == nil || len(*c) != 1 {
+			return nil, false
+		}
+		sep = Const(8, uint64((*c)[0]))
+	}
+	if name == "strings.Count" {
+		// decide every byte (fork per undecided byte); the count is then concrete on each path
+		return e.countFrom(st, x, bs, sep, 0, 0), true
+	}
+	for i, b := range bs {
+		c := Eq(b, sep)
+		if c.IsTrue() {
+			return c64(uint64(i)), true
+		}
+		if c.IsFalse() {
+			continue
+		}
+		e.forkOn(st, x, c, c64(uint64(i)))
+		if st.model == nil && e.feasible(st) == RUnsat {
+			panic(pathEnd{"infeasible"})
+		}
+	}
+	return Const(64, ^uint64(0)), true
+}
+
+func (e *Engine) countFrom(st *State, x *ssa.Call, bs []*Term, sep *Term, from, acc int) Value {
+	for i := from; i < len(bs); i++ {
+		c := Eq(bs[i], sep)
+		if c.IsTrue() {
+			acc++
+			continue
+		}
+		if c.IsFalse() {
+			continue
+		}
+		// fork: the alternative state (byte is a separator) finishes the count itself
+		if r, mdl := e.check(append(append([]*Term(nil), st.pc...), c)); r != RUnsat {
+			alt := st.clone()
+			alt.pc = append(alt.pc, c)
+			alt.model = mdl
+			af := alt.frames[len(alt.frames)-1]
+			af.env[x] = e.countFrom(alt, x, bs, sep, i+1, acc+1)
+			e.extraForks = append(e.extraForks, alt)
+			e.Forks++
+		}
+		e.extendPC(st, Not(c))
+	}
+	return c64(uint64(acc))
+}
+
+// stringsMap models strings.Map on a string of concrete length whose bytes are ASCII: the mapping closure is
+// evaluated symbolically per byte (all its paths joined), then each byte is case-split into dropped / kept.
+func (e *Engine) stringsMap(st *State, f *Frame, x *ssa.Call, args []Value) (Value, bool) {
+	fnv, ok := args[0].(FuncV)
+	bs, _, ok2 := e.strBytes(st, args[1])
+	if !ok || !ok2 || fnv.Fn == nil || x == nil {
+		return nil, false
+	}
+	type choice struct {
+		drop *Term
+		keep *Term // byte value when kept
+	}
+	var cs []choice
+	for _, b := range bs {
+		e.assume(st, Cmp("bvult", b, Const(8, 0x80)))
+		if e.assumeTexts != nil {
+			e.assumeTexts["engine: strings.Map model - input bytes restricted to ASCII (< 0x80)"] = true
+		}
+		if !e.mergeCallBind(st, f, nil, fnv.Fn, []Value{ZExt(32, b)}, fnv.Bind) {
+			return nil, false
+		}
+		r := e.lastPure.(*Term)
+		cs = append(cs, choice{Cmp("bvslt", r, Const(32, 0)), Extract(7, 0, r)})
+	}
+	// enumerate the drop patterns depth-first through forks
+	var build func(s *State, i int, kept []*Term) Value
+	build = func(s *State, i int, kept []*Term) Value {
+		for ; i < len(cs); i++ {
+			d := cs[i].drop
+			if d.IsTrue() {
+				continue
+			}
+			if d.IsFalse() {
+				kept = append(kept, cs[i].keep)
+				continue
+			}
+			if r, mdl := e.check(append(append([]*Term(nil), s.pc...), d)); r != RUnsat {
+				alt := s.clone()
+				alt.pc = append(alt.pc, d)
+				alt.model = mdl
+				af := alt.frames[len(alt.frames)-1]
+				af.env[x] = build(alt, i+1, append([]*Term(nil), kept...))
+				e.extraForks = append(e.extraForks, alt)
+				e.Forks++
+			}
+			e.extendPC(s, Not(d))
+			kept = append(kept, cs[i].keep)
+		}
+		if len(kept) == 0 {
+			return StringV{Off: c64(0), Len: c64(0)}
+		}
+		arr := MemZero(8)
+		for k, t := range kept {
+			arr = arr.Write(c64(uint64(k)), t)
+		}
+		id := e.newObj(s, &Obj{Kind: OArr, Typ: types.Typ[types.Uint8], Arr: arr, W: 8, Len: c64(uint64(len(kept))), MaxLen: len(kept), Name: "strings.Map"})
+		return StringV{Obj: id, Off: c64(0), Len: c64(uint64(len(kept)))}
+	}
+	return build(st, 0, nil), true
+}
+
+func (e *Engine) sameValue(a, b Value) bool {
+	ai, ok1 := a.(IfaceV)
+	bi, ok2 := b.(IfaceV)
+	if ok1 && ok2 {
+		if ai.T == nil || bi.T == nil {
+			return ai.T == nil && bi.T == nil
+		}
+		if !types.Identical(ai.T, bi.T) {
+			return false
+		}
+		return e.sameValue(ai.V, bi.V)
+	}
+	at, ok1 := a.(*Term)
+	bt, ok2 := b.(*Term)
+	if ok1 && ok2 {
+		return at == bt
+	}
+	return false
+}
+
+// cacheRewrite: an entry of a concurrent map that other goroutines may already have read is overwritten with
+// a different value (thread-modular obligation for caches that must be stable under concurrent first use)
+func (e *Engine) cacheRewrite(st *State, x *ssa.Call, key string) {
+	where, site := "?", "?"
+	if x != nil {
+		where, site = e.whereOf(st, x)
+	}
+	k := "ownership|cache|" + where
+	if e.seenViol[k] {
+		return
+	}
+	e.seenViol[k] = true
+	v := Violation{Kind: "ownership", Label: "an entry of a shared sync.Map is overwritten with a different value (readers in other goroutines can observe the earlier one)", Where: where, Site: site, Model: map[string]uint64{}}
+	if r, m := e.check(append([]*Term(nil), st.pc...)); r == RSat && m != nil {
+		for kk, xx := range m.BV {
+			v.Model[kk] = xx
+		}
+		for kk, xx := range m.B {
+			if xx {
+				v.Model[kk] = 1
+			} else {
+				v.Model[kk] = 0
+			}
+		}
+	}
+	e.Violations = append(e.Violations, v)
+}
